@@ -2055,6 +2055,13 @@ class Evaluator:
             if T.tag(recv) == 'raise':
                 return recv
             return self._call_on(recv, f.attr, e, fr)
+        if isinstance(f, ast.Name) and f.id == '__leadrun__' and len(e.args) == 2 and not e.keywords:
+            # pseudo-call written by the source normal form (astnorm level 3): length of the leading run of `item` in `seq`
+            seq, item = self.expr(e.args[0], fr), self.expr(e.args[1], fr)
+            for x in (seq, item):
+                if T.tag(x) == 'raise':
+                    return x
+            return T.raw_op('LEADRUN', seq, item)
         callee = self.expr(f, fr)
         if callee == T.ext('builtins.map') and len(e.args) == 2 and not e.keywords and not any(isinstance(a, ast.Starred) for a in e.args):
             # map(f, it) is [f(x) for x in it] for everything this analysis observes (what is iterated, in which order)
